@@ -449,9 +449,11 @@ def _gen(ctx, n_exh_leaves, n_pair, n_multi, n_nested, n_bad, n_ext):
             for a in u1:
                 yield {"op": "multi", "ds": [a], "level": lv}
         # self-referential `other` of update_nested ("recursive dictionaries are strongly discouraged")
-        for length in (1, 2, 3):
-            yield {"op": "cyc", "key": "a", "d": {"a": 1, "b": 2}, "cycle": length}
-        yield {"op": "cyc", "key": "a", "d": {"b": 2}, "cycle": 1}
+        for tail in (0, 1, 2):
+            for length in (1, 2, 3, 5):
+                yield {"op": "cyc", "key": "a", "d": {"a": 1, "b": 2}, "cycle": length, "tail": tail}
+        yield {"op": "cyc", "key": "a", "d": {"b": 2}, "cycle": 1, "tail": 0}
+        yield {"op": "cyc", "key": "a", "d": {"b": 2}, "cycle": 2, "tail": 2}
 
     def pairs():
         rng = __import__("random").Random(seeds[0])
@@ -1076,11 +1078,16 @@ def _run_impl(case):
     if op == "cyc":
         # other[key][key]... leads back to `other`
         key, d = case["key"], _fresh(case["d"])
+        # other -> (tail dictionaries) -> a cycle of `cycle` dictionaries, all along `key`
+        tail = [{"c": "t%d" % i} for i in range(case.get("tail", 0))]
         nodes = [{"c": i} for i in range(case["cycle"])]
         for i, nd in enumerate(nodes):
             nd[key] = nodes[(i + 1) % len(nodes)]
-        u = _call(lc.update_nested, key, d, nodes[0])
-        return {"e": u["e"]} if "e" in u else {"ok": d.get(key) is nodes[0]}
+        for i, nd in enumerate(tail):
+            nd[key] = tail[i + 1] if i + 1 < len(tail) else nodes[0]
+        other = (tail + nodes)[0]
+        u = _call(lc.update_nested, key, d, other)
+        return {"e": u["e"]} if "e" in u else {"ok": d.get(key) is other}
     if op == "zip":
         import lena.flow
         rounds = [_fresh(case["values"])] + ([_fresh(case["values2"])] if "values2" in case else [])
@@ -1681,7 +1688,7 @@ def compare(case, res, replies):
     if op == "cyc":
         got = {"e": res["e"]} if "e" in res else {"ok": res["ok"]}
         if got != replies[0]:
-            return (f"update_nested({case['key']!r}, {case['d']}, <other with a cycle of length {case['cycle']} along the key>): "
+            return (f"update_nested({case['key']!r}, {case['d']}, <other: {case.get('tail', 0)} dictionaries, then a cycle of {case['cycle']}, along the key>): "
                     f"impl {got} vs model {replies[0]}")
         return None
     if op == "zip":
@@ -1934,11 +1941,26 @@ def _oracle(case, res):
                 return None   # nowhere to put the previous value: outside the statement
             return f"update_nested({key!r}, {d0}, {o0}) raised {res['e']}"
         d1 = res["d"]
-        # (that d[key] is the object `other`, that the other keys of d and the other items of `other` are untouched is
-        # predicted by the model and compared there; the statement itself only demands reachability)
+        # "Update d[key] with the other dictionary preserving data": the previous value is reachable under the new one,
+        # the new d[key] is `other` with that value put in (nothing of `other` is lost), the other keys of d are as they
+        # were — all by value; that d[key] is the *object* `other` is left to the correspondence
+        what = f"update_nested({key!r}, {d0}, {o0})"
         if key in d0 and res["prev_at"] is None:
-            return (f"update_nested({key!r}, {d0}, {o0}): the previous d[{key!r}] = {d0[key]!r} is not reachable "
+            return (f"{what}: the previous d[{key!r}] = {d0[key]!r} is not reachable "
                     f"under the new one by following {key!r}: d = {d1}")
+        for k in set(d0) | set(d1):
+            if k != key and (k not in d0 or k not in d1 or d0[k] != d1[k]):
+                return f"{what} changed the other key {k!r} of d: d = {d1}"
+        if key in d0:
+            o1 = copy.deepcopy(d1[key])
+            cur = o1
+            for _ in range(res["prev_at"] - 1):
+                cur = cur[key]
+            del cur[key]
+            if o1 != o0:
+                return f"{what} lost or changed items of other: d = {d1}"
+        elif d1.get(key) != o0:
+            return f"{what}: d[key] = {d1.get(key)} is not other"
         return None
     if op == "seq":
         # each step by itself obeys the statement (other contained afterwards, untouched items of d kept); what happens to
